@@ -237,3 +237,122 @@ Print Assumptions C12_unescape_table_is_source.
 Example C12_model_lexer_is_source_example :
   gen_lex no_uni no_uni no_uni lexer_funs example_input = GenOk example_tokens.
 Proof. exact gen_lex_example. Qed.
+
+(* ------------------------------------------------------------------------------------------------------------------
+   (7) CAPSTONES: the theorems (1)-(4) restated over the REGENERATED lexer only.  Bridge/BrCapstoneC12.v composes each
+   property theorem (about the hand model Lexer.lex) with C12_model_lexer_is_source / C12_model_Lex_is_source; the hand
+   model no longer occurs in the statements.  `source_lexes ul ud us input ts` unfolds to
+       gen_lex ul ud us lexer_funs input = GenOk ts /\ gen_Lex ul ud us (2*len+10) lexer_funs input = GenOk ts :
+   the interpretation of the state functions regenerated from parser/lexer/*.go under the driver loop, AND the
+   interpretation of the regenerated function `Lex` itself, both return exactly the token list ts (no error, no crash
+   of the interpreter, fuel sufficient).  Reference definitions on the right: the spellings (item_val, quote,
+   dec_runes, hex_runes, num_runes, layout), utf8_encode, advance / lastpos / expected, classify_number. *)
+Require Import X.Bridge.BrCapstoneC12.
+
+Theorem C12_source_lexes_unfold : forall uni_letter uni_digit uni_space input ts,
+  source_lexes uni_letter uni_digit uni_space input ts <->
+  (gen_lex uni_letter uni_digit uni_space lexer_funs input = GenOk ts /\
+   gen_Lex uni_letter uni_digit uni_space (2 * List.length input + 10) lexer_funs input = GenOk ts).
+Proof. exact (fun ul ud us input ts => iff_refl _). Qed.
+
+Theorem C12_source_string_all_spellings : forall uni_letter uni_digit uni_space q items,
+  (q = 34 \/ q = 39) -> forallb (item_ok q) items = true ->
+  source_lexes uni_letter uni_digit uni_space (q :: body_runes items ++ [q])
+    [mkTok (1, 0) TkString (utf8_encode (map item_val items));
+     mkTok (advance (1, 0) (q :: body_runes items)) TkEOF EmptyString].
+Proof. exact src_string_all_spellings. Qed.
+
+Theorem C12_source_string : forall uni_letter uni_digit uni_space q s,
+  (q = 34 \/ q = 39) -> forallb valid_scalar s = true ->
+  source_lexes uni_letter uni_digit uni_space (quote q s)
+    [mkTok (1, 0) TkString (utf8_encode s);
+     mkTok (advance (1, 0) (removelast (quote q s))) TkEOF EmptyString].
+Proof. exact src_string. Qed.
+
+(* the finding C12-raw-cr stated of the regenerated lexer: with a raw CR allowed the statement is false *)
+Definition C12_source_string_full_statement : Prop := src_string_full_statement.
+Theorem C12_source_string_raw_cr_refuted : ~ C12_source_string_full_statement.
+Proof. exact src_string_raw_cr_refuted. Qed.
+
+Theorem C12_source_int_dec_all_spellings : forall uni_letter uni_digit uni_space parse_float d ds,
+  is_dec d = true -> forallb is_dec_us ds = true -> dval (filter not_us (d :: ds)) < 2 ^ 63 ->
+  source_lexes uni_letter uni_digit uni_space (d :: ds)
+    [mkTok (1, 0) TkNumber (utf8_encode (d :: ds));
+     mkTok (advance (1, 0) (removelast (d :: ds))) TkEOF EmptyString] /\
+  classify_number parse_float (utf8_encode (d :: ds)) = LitInt (dval (filter not_us (d :: ds))).
+Proof. exact src_int_dec_all_spellings. Qed.
+
+Theorem C12_source_int_dec : forall uni_letter uni_digit uni_space parse_float n, 0 <= n < 2 ^ 63 ->
+  source_lexes uni_letter uni_digit uni_space (dec_runes n)
+    [mkTok (1, 0) TkNumber (utf8_encode (dec_runes n));
+     mkTok (advance (1, 0) (removelast (dec_runes n))) TkEOF EmptyString] /\
+  classify_number parse_float (utf8_encode (dec_runes n)) = LitInt n.
+Proof. exact src_int_dec. Qed.
+
+Theorem C12_source_int_hex : forall uni_letter uni_digit uni_space parse_float x ds,
+  mem x [120; 88] = true -> forallb is_hex_us ds = true -> filter not_us ds <> [] ->
+  hexval (filter not_us ds) < 2 ^ 63 ->
+  source_lexes uni_letter uni_digit uni_space (48 :: x :: ds)
+    [mkTok (1, 0) TkNumber (utf8_encode (48 :: x :: ds));
+     mkTok (advance (1, 0) (removelast (48 :: x :: ds))) TkEOF EmptyString] /\
+  classify_number parse_float (utf8_encode (48 :: x :: ds)) = LitInt (hexval (filter not_us ds)).
+Proof. exact src_int_hex. Qed.
+
+Theorem C12_source_int_hex_canonical : forall uni_letter uni_digit uni_space parse_float n, 0 <= n < 2 ^ 63 ->
+  source_lexes uni_letter uni_digit uni_space (hex_runes n)
+    [mkTok (1, 0) TkNumber (utf8_encode (hex_runes n));
+     mkTok (advance (1, 0) (removelast (hex_runes n))) TkEOF EmptyString] /\
+  classify_number parse_float (utf8_encode (hex_runes n)) = LitInt n.
+Proof. exact src_int_hex_canonical. Qed.
+
+Theorem C12_source_float_class : forall uni_letter uni_digit uni_space parse_float n,
+  num_ok n = true -> float_sp n = true ->
+  source_lexes uni_letter uni_digit uni_space (num_runes n)
+    [mkTok (1, 0) TkNumber (utf8_encode (num_runes n));
+     mkTok (advance (1, 0) (removelast (num_runes n))) TkEOF EmptyString] /\
+  classify_number parse_float (utf8_encode (num_runes n)) =
+    match parse_float (utf8_encode (filter not_us (num_runes n))) with
+    | Some f => LitFloat f
+    | None => LitErr
+    end.
+Proof. exact src_float_class. Qed.
+
+Theorem C12_source_positions : forall uni_letter uni_digit uni_space items trail,
+  layout_ok uni_letter uni_digit uni_space items trail = true ->
+  source_lexes uni_letter uni_digit uni_space (layout items trail)
+    (expected (1, 0) items ++
+     [mkTok (lastpos (1, 0) (1, 0) (layout items trail)) TkEOF EmptyString]).
+Proof. exact src_positions. Qed.
+
+(* whatever the regenerated lexer accepts or rejects, the model does, and conversely (used by the capstones of C11 / C13) *)
+Theorem C12_source_lex_accepts_iff : forall uni_letter uni_digit uni_space input ts,
+  gen_lex uni_letter uni_digit uni_space lexer_funs input = GenOk ts <-> lex uni_letter uni_digit uni_space input = LexOk ts.
+Proof. exact (fun ul ud us input ts => conj (model_of_source_lex ul ud us input ts) (fun H => proj1 (source_lexes_of_model ul ud us input ts H))). Qed.
+
+(* non-vacuity: the hypotheses of the position capstone hold of the three-line sample (Greek-letter oracle), the theorem
+   applied (not recomputed) gives both regenerated readings; and recomputed through the interpreter of the regenerated
+   functions (vm_compute over gen/GenLexer.v) *)
+Example C12_source_positions_applied :
+  source_lexes greek no_uni no_uni (layout C12_sample_layout [32; 10])
+    (expected (1, 0) C12_sample_layout ++ [mkTok (lastpos (1, 0) (1, 0) (layout C12_sample_layout [32; 10])) TkEOF EmptyString]).
+Proof. exact (C12_source_positions greek no_uni no_uni C12_sample_layout [32; 10] (proj1 C12_positions_nonvacuous)). Qed.
+
+Example C12_source_positions_computed :
+  gen_lex greek no_uni no_uni lexer_funs (layout C12_sample_layout [32; 10]) =
+    GenOk (expected (1, 0) C12_sample_layout ++ [mkTok (3, 14) TkEOF EmptyString]) /\
+  gen_Lex greek no_uni no_uni (2 * List.length (layout C12_sample_layout [32; 10]) + 10) lexer_funs (layout C12_sample_layout [32; 10]) =
+    GenOk (expected (1, 0) C12_sample_layout ++ [mkTok (3, 14) TkEOF EmptyString]).
+Proof. vm_compute. split; reflexivity. Qed.
+
+Example C12_source_string_applied :
+  source_lexes no_uni no_uni no_uni (quote 34 [1; 34; 39; 92; 13; 10; 233; 22793; 128512])
+    [mkTok (1, 0) TkString (utf8_encode [1; 34; 39; 92; 13; 10; 233; 22793; 128512]);
+     mkTok (advance (1, 0) (removelast (quote 34 [1; 34; 39; 92; 13; 10; 233; 22793; 128512]))) TkEOF EmptyString].
+Proof. exact (C12_source_string no_uni no_uni no_uni 34 _ (or_introl eq_refl) (proj1 C12_string_nonvacuous)). Qed.
+
+(* one Print Assumptions for all capstones of this section (each walk through the lexer bridge costs ~15 s) *)
+Definition C12_source_capstones :=
+  (C12_source_string_all_spellings, C12_source_string, C12_source_string_raw_cr_refuted, C12_source_int_dec_all_spellings,
+   C12_source_int_dec, C12_source_int_hex, C12_source_int_hex_canonical, C12_source_float_class, C12_source_positions,
+   C12_source_lex_accepts_iff).
+Print Assumptions C12_source_capstones.
